@@ -378,6 +378,7 @@ theorem codonAlign_translates_back (codeId : Int) (nt p q : Seq)
 private theorem byRef_unfold (alphabet phase : Nat) (codeId : Int) (refName : String) (rows out : List (String × Seq))
     (h : translateByReference alphabet phase codeId refName rows = some out) :
     ∃ refId code, findRowIdx refName rows 0 = some refId ∧ geneticCode codeId = some code ∧
+      3 + phase ≤ (rows.getD refId ("", [])).2.length ∧
       out = rows.zipIdx.map fun x =>
         (x.1.1, if x.2 == refId then (refSegs code (rows.getD refId ("", [])).2.length ((rows.getD refId ("", [])).2.drop phase)).flatMap refChunk
                 else compRow code (refSegs code (rows.getD refId ("", [])).2.length ((rows.getD refId ("", [])).2.drop phase)) (x.1.2.drop phase)) := by
@@ -392,14 +393,18 @@ private theorem byRef_unfold (alphabet phase : Nat) (codeId : Int) (refName : St
       · split at h
         · simp at h
         · rename_i code hcode
-          simp only [Option.some.injEq] at h
-          exact ⟨refId, code, hid, hcode, h.symm⟩
+          simp only [] at h
+          split at h
+          · simp at h
+          · rename_i hlen
+            simp only [Option.some.injEq] at h
+            exact ⟨refId, code, hid, hcode, by omega, h.symm⟩
 
 /-- **the result is rectangular** (every frame): same names in the same order, and all rows of one length -/
 theorem byRef_rectangular (alphabet phase : Nat) (codeId : Int) (refName : String) (rows out : List (String × Seq))
     (h : translateByReference alphabet phase codeId refName rows = some out) :
     out.map Prod.fst = rows.map Prod.fst ∧ ∃ w, ∀ o ∈ out, o.2.length = w := by
-  obtain ⟨refId, code, _, _, rfl⟩ := byRef_unfold alphabet phase codeId refName rows out h
+  obtain ⟨refId, code, _, _, _, rfl⟩ := byRef_unfold alphabet phase codeId refName rows out h
   refine ⟨Proofs.TranslateRef.names_preserved _ rows 0, ?_⟩
   refine ⟨((refSegs code (rows.getD refId ("", [])).2.length ((rows.getD refId ("", [])).2.drop phase)).flatMap refChunk).length, ?_⟩
   intro o ho
@@ -424,22 +429,21 @@ private theorem findRowIdx_lt (name : String) (rows : List (String × Seq)) (k i
 /-- **without gaps, reference-guided translation is plain translation, in every frame**: when no row of the
 alignment (all rows of one length) contains a gap, every row of the result is the codon-by-codon translation
 of that row from `phase` on — which is what `Sequence.Translate` returns whenever it succeeds on that row.
-**Partial**: what is missing for "coincides with plain translation" is the error case — when the alignment is
-shorter than `3 + phase` plain translation is an error but the reference-guided one succeeds with rows
-without residues (`byRef_short_returns_empty_rows`, `byRef_no_gaps_counterexample`). -/
-theorem byRef_eq_translate_of_no_gaps_partial (alphabet phase : Nat) (codeId : Int) (refName : String)
+The two also fail together on an alignment shorter than `3 + phase` (`byRef_short_is_error`): success here
+implies `3 + phase ≤ L`, the length condition of plain translation. -/
+theorem byRef_eq_translate_of_no_gaps (alphabet phase : Nat) (codeId : Int) (refName : String)
     (rows out : List (String × Seq)) (L : Nat)
     (hrect : ∀ r ∈ rows, r.2.length = L) (hnogap : ∀ r ∈ rows, ∀ x ∈ r.2, x ≠ GAP)
     (h : translateByReference alphabet phase codeId refName rows = some out) :
-    ∃ code, geneticCode codeId = some code ∧
+    ∃ code, geneticCode codeId = some code ∧ 3 + phase ≤ L ∧
       out = rows.map (fun r => (r.1, codonsFrom code (r.2.drop phase))) ∧
       ∀ r ∈ rows, ∀ p, translateSeq phase codeId r.2 = some p → (r.1, p) ∈ out := by
-  obtain ⟨refId, code, hid, hcode, rfl⟩ := byRef_unfold alphabet phase codeId refName rows out h
+  obtain ⟨refId, code, hid, hcode, hlen3, rfl⟩ := byRef_unfold alphabet phase codeId refName rows out h
   have hlt := findRowIdx_lt refName rows 0 refId hid
   have hmem : rows.getD refId ("", []) ∈ rows := by
     rw [List.getD_eq_getElem?_getD, List.getElem?_eq_getElem (by omega)]
     exact List.getElem_mem _
-  generalize hrefdef : rows.getD refId ("", []) = ref at hmem
+  generalize hrefdef : rows.getD refId ("", []) = ref at hmem hlen3
   have hrl := hrect ref hmem
   have hrg := hnogap ref hmem
   have hseg := Proofs.TranslateRef.refSegs_nogap code ref.2.length (ref.2.drop phase)
@@ -471,7 +475,7 @@ theorem byRef_eq_translate_of_no_gaps_partial (alphabet phase : Nat) (codeId : I
         · simp [hrect x.1 hxm, hrl]
         · intro c hc; exact hnogap x.1 hxm c (List.mem_of_mem_drop hc)
     rw [this, ← List.map_map, List.zipIdx_map_fst]
-  refine ⟨code, hcode, hout, ?_⟩
+  refine ⟨code, hcode, by rw [← hrl]; exact hlen3, hout, ?_⟩
   intro r hr p hp
   rw [hout]
   have := translate_eq_codons codeId code hcode phase r.2 p hp
@@ -489,33 +493,40 @@ private theorem refSegs_short (code : List (List Byte × Byte)) (fuel : Nat) (re
     | [_, _], _ => rfl
     | _ :: _ :: _ :: _, h => simp at h; omega
 
-/-- **where the two differ**: on an alignment shorter than `3 + phase` plain translation is an error for every
-row, while `TranslateByReference` succeeds and returns rows without any residue -/
-theorem byRef_short_returns_empty_rows (alphabet phase : Nat) (codeId : Int) (refName : String)
-    (rows out : List (String × Seq)) (hshort : ∀ r ∈ rows, r.2.length < 3 + phase)
-    (h : translateByReference alphabet phase codeId refName rows = some out) :
-    out = rows.map (fun r => (r.1, [])) ∧ ∀ r ∈ rows, translateSeq phase codeId r.2 = none := by
-  obtain ⟨refId, code, hid, hcode, rfl⟩ := byRef_unfold alphabet phase codeId refName rows out h
-  have hlt := findRowIdx_lt refName rows 0 refId hid
-  have hmem : rows.getD refId ("", []) ∈ rows := by
-    rw [List.getD_eq_getElem?_getD, List.getElem?_eq_getElem (by omega)]
-    exact List.getElem_mem _
-  have hs := refSegs_short code (rows.getD refId ("", [])).2.length ((rows.getD refId ("", [])).2.drop phase)
-    (by have := hshort _ hmem; rw [List.length_drop]; omega)
+/-- **short alignments: both are errors** — on an alignment shorter than `3 + phase` plain translation fails for
+every row and so does `TranslateByReference` (it returned rows without residues before the `fix:` commit) -/
+theorem byRef_short_is_error (alphabet phase : Nat) (codeId : Int) (refName : String)
+    (rows : List (String × Seq)) (hshort : ∀ r ∈ rows, r.2.length < 3 + phase) :
+    translateByReference alphabet phase codeId refName rows = none ∧
+    ∀ r ∈ rows, translateSeq phase codeId r.2 = none := by
   refine ⟨?_, ?_⟩
-  · rw [hs]
-    simp only [List.flatMap_nil, compRow, ite_self]
-    rw [show (fun x : (String × Seq) × Nat => (x.1.1, ([] : Seq))) = (fun r : String × Seq => (r.1, ([] : Seq))) ∘ Prod.fst from rfl,
-      ← List.map_map, List.zipIdx_map_fst]
+  · cases h : translateByReference alphabet phase codeId refName rows with
+    | none => rfl
+    | some out =>
+      obtain ⟨refId, code, hid, _, hlen3, _⟩ := byRef_unfold alphabet phase codeId refName rows out h
+      have hlt := findRowIdx_lt refName rows 0 refId hid
+      have hmem : rows.getD refId ("", []) ∈ rows := by
+        rw [List.getD_eq_getElem?_getD, List.getElem?_eq_getElem (by omega)]
+        exact List.getElem_mem _
+      have := hshort _ hmem
+      omega
   · intro r hr
     rw [translate_error_iff]
     exact Or.inr (Or.inr (hshort r hr))
 
-/-- kernel-checked instance of the difference: two rows `AC` (no gap), frame 0, standard code -/
-theorem byRef_no_gaps_counterexample :
-    translateByReference NUCLEOTIDS 0 0 "r" [("r", [65, 67]), ("s", [65, 67])] = some [("r", []), ("s", [])] ∧
-    translateSeq 0 0 [65, 67] = none ∧ translateFrames NUCLEOTIDS 0 0 [("r", [65, 67]), ("s", [65, 67])] = none := by
-  decide
+/-- a negative phase (the command line's "three frames" value −1 included) is an error, not a crash; otherwise
+the `int` phase is used as it is -/
+theorem byRef_negative_phase_is_error (alphabet : Nat) (phase : Int) (codeId : Int) (refName : String)
+    (rows : List (String × Seq)) :
+    (phase < 0 → translateByReferenceZ alphabet phase codeId refName rows = none) ∧
+    (0 ≤ phase → translateByReferenceZ alphabet phase codeId refName rows =
+      translateByReference alphabet phase.toNat codeId refName rows) := by
+  unfold translateByReferenceZ
+  constructor
+  · intro h; simp [h]
+  · intro h
+    have : ¬ phase < 0 := by omega
+    simp [this]
 
 /-- **the reference row, gaps removed, is a prefix of the translation of the ungapped reference** read from
 column `phase` on (for every gap placement; the walk stops at the first incomplete codon and drops nothing of
@@ -524,7 +535,7 @@ theorem byRef_ref_row_prefix_from (alphabet phase : Nat) (codeId : Int) (refName
     (h : translateByReference alphabet phase codeId refName rows = some out) :
     ∃ code r o, geneticCode codeId = some code ∧ findRow refName rows = some r ∧ findRow refName out = some o ∧
       ungap o <+: codonsFrom code (ungap (r.drop phase)) := by
-  obtain ⟨refId, code, hid, hcode, rfl⟩ := byRef_unfold alphabet phase codeId refName rows out h
+  obtain ⟨refId, code, hid, hcode, hlen3, rfl⟩ := byRef_unfold alphabet phase codeId refName rows out h
   obtain ⟨n, hn, rfl⟩ := geneticCode_tbl codeId code hcode
   have hf := Proofs.TranslateRef.findRow_byIdx refName
     ((refSegs (tbl n) (rows.getD refId ("", [])).2.length ((rows.getD refId ("", [])).2.drop phase)).flatMap refChunk)
@@ -543,12 +554,13 @@ theorem byRef_ref_row_prefix (alphabet : Nat) (codeId : Int) (refName : String) 
       ungap o <+: codonsFrom code (ungap r) := by
   simpa using byRef_ref_row_prefix_from alphabet 0 codeId refName rows out h
 
-/-- `TranslateByReference` fails exactly for an empty or unknown reference name, a non-nucleotide alphabet or
-an unknown genetic code -/
+/-- `TranslateByReference` fails exactly for an empty or unknown reference name, a non-nucleotide alphabet, an
+unknown genetic code, or an alignment (reference row) shorter than `3 + phase` -/
 theorem byRef_error_iff (alphabet phase : Nat) (codeId : Int) (refName : String) (rows : List (String × Seq)) :
     translateByReference alphabet phase codeId refName rows = none ↔
       (refName = "" ∨ findRowIdx refName rows 0 = none ∨ (alphabet ≠ NUCLEOTIDS ∧ alphabet ≠ BOTH) ∨
-       geneticCode codeId = none) := by
+       geneticCode codeId = none ∨
+       ∃ refId, findRowIdx refName rows 0 = some refId ∧ (rows.getD refId ("", [])).2.length < 3 + phase) := by
   unfold translateByReference
   by_cases h0 : refName = ""
   · simp [h0]
@@ -557,12 +569,18 @@ theorem byRef_error_iff (alphabet phase : Nat) (codeId : Int) (refName : String)
     cases h1 : findRowIdx refName rows 0 with
     | none => simp
     | some refId =>
-      simp only [reduceCtorEq, false_or]
-      by_cases h2 : alphabet = NUCLEOTIDS
-      · cases h3 : geneticCode codeId <;> simp [h2, NUCLEOTIDS, BOTH]
-      · by_cases h2' : alphabet = BOTH
-        · cases h3 : geneticCode codeId <;> simp [h2', NUCLEOTIDS, BOTH]
-        · simp [h2, h2']
+      simp only [reduceCtorEq, false_or, Option.some.injEq, exists_eq_left']
+      by_cases hl : (rows.getD refId ("", [])).2.length < 3 + phase
+      · by_cases h2 : alphabet = NUCLEOTIDS
+        · cases h3 : geneticCode codeId <;> simp [h2, hl, NUCLEOTIDS, BOTH]
+        · by_cases h2' : alphabet = BOTH
+          · cases h3 : geneticCode codeId <;> simp [h2', hl, NUCLEOTIDS, BOTH]
+          · simp [h2, h2', hl]
+      · by_cases h2 : alphabet = NUCLEOTIDS
+        · cases h3 : geneticCode codeId <;> simp [h2, hl, NUCLEOTIDS, BOTH]
+        · by_cases h2' : alphabet = BOTH
+          · cases h3 : geneticCode codeId <;> simp [h2', hl, NUCLEOTIDS, BOTH]
+          · simp [h2, h2', hl]
 
 /-! ## three frames -/
 
@@ -725,9 +743,10 @@ example : translateByReference 1 0 0 "r" [("r", [65, 67, 45, 45, 45, 71, 84, 65,
 /-- no gaps, frame 1 -/
 example : translateByReference 1 1 0 "r" [("r", [65, 65, 84, 71, 65]), ("s", [67, 71, 67, 84, 84])] =
     some [("r", [77]), ("s", [65])] ∧ translateSeq 1 0 [67, 71, 67, 84, 84] = some [65] := by decide
-/-- shorter than `3 + phase`: empty rows, while plain translation fails -/
-example : translateByReference 1 0 0 "r" [("r", [65, 67]), ("s", [65, 67])] = some [("r", []), ("s", [])] ∧
-    translateSeq 0 0 [65, 67] = none := by decide
+/-- shorter than `3 + phase`: an error, like plain translation; a negative phase: an error -/
+example : translateByReference 1 0 0 "r" [("r", [65, 67]), ("s", [65, 67])] = none ∧
+    translateSeq 0 0 [65, 67] = none ∧
+    translateByReferenceZ 1 (-1) 0 "r" [("r", [65, 67, 71]), ("s", [65, 67, 71])] = none := by decide
 example : translateFrames 1 (-1) 0 [("a", [65, 84, 71, 65, 65])] = some [("a_0", [77]), ("a_1", [42]), ("a_2", [69])] := by
   decide
 
